@@ -121,6 +121,9 @@ type wfSpec struct {
 	HasDef   int        `json:"has_def,omitempty"`
 	DefShell string     `json:"def_shell,omitempty"`
 	Jobs     []*jobSpec `json:"jobs"`
+	// Broken: one more job with a key the parser does not know (a syntax-check diagnostic; the tree
+	// is built all the same and the scripts of the other jobs are checked like in any workflow)
+	Broken bool `json:"broken,omitempty"`
 }
 
 type behaviour struct {
@@ -174,6 +177,14 @@ func genScript(r *hx.Rng, marker int, py bool) string {
 		// marker not on the first line
 		lines[0], lines[len(lines)-1] = lines[len(lines)-1], lines[0]
 	}
+	// a script that starts with empty lines (and ends with some): the text handed to the tool keeps them
+	lead := ""
+	switch marker % 7 {
+	case 3:
+		lead = "\n"
+	case 5:
+		lead = "\n\n"
+	}
 	if r.Chance(1, 8) {
 		// closing braces (a nested dict literal, a Go template) BEFORE the first placeholder
 		if py {
@@ -186,7 +197,7 @@ func genScript(r *hx.Rng, marker int, py bool) string {
 		// argument): it is a script all the same, not "one placeholder"
 		return "${{ matrix.docker }} inspect " + m + " --format {{.Id}}"
 	}
-	return strings.Join(lines, "\n")
+	return lead + strings.Join(lines, "\n")
 }
 
 func genWorkflow(r *hx.Rng, next *int, thorough bool) *wfSpec {
@@ -231,6 +242,7 @@ func genWorkflow(r *hx.Rng, next *int, thorough bool) *wfSpec {
 		}
 		w.Jobs = append(w.Jobs, job)
 	}
+	w.Broken = *next%6 == 4
 	return w
 }
 
@@ -268,6 +280,9 @@ func (w *wfSpec) yaml() string {
 				b.WriteString("        shell: " + *s.Shell + "\n")
 			}
 		}
+	}
+	if w.Broken {
+		b.WriteString("  zzbroken:\n    runs-on: ubuntu-latest\n    timeout_minutes: 5\n    steps:\n      - uses: actions/checkout@v4\n")
 	}
 	return b.String()
 }
@@ -823,6 +838,9 @@ func execRun(e *env, idx int, rs *runSpec) *runResult {
 			fmt.Sscanf(m[1], "%d:%d:", &od.l, &od.c)
 			odiags = append(odiags, od)
 		default:
+			if d.Kind == "syntax-check" && strings.Contains(d.Message, "timeout_minutes") {
+				continue // the unknown key of the job `zzbroken` (wfSpec.Broken)
+			}
 			fail("diagnostic of another rule", "harness:rule", d.Message)
 		}
 	}
